@@ -42,7 +42,7 @@ impl<'a> WireFormat<'a> for NSEC<'a> {
 
             let window_block = data[*position];
             *position += 1;
-            if type_bit_maps.last().is_some_and(|f: &TypeBitMap<'_>| f.window_block - 1 != window_block) {
+            if type_bit_maps.last().is_some_and(|f: &TypeBitMap<'_>| f.window_block >= window_block) {
                 return Err(crate::SimpleDnsError::AttemptedInvalidOperation);
             }
 
